@@ -20,6 +20,13 @@
 
 #include <asn_application.h>
 #include <asn_internal.h>
+#include <der_encoder.h>
+#ifndef ASN_DISABLE_PER_SUPPORT
+#include <per_encoder.h>
+#endif
+#ifndef ASN_DISABLE_OER_SUPPORT
+#include <oer_encoder.h>
+#endif
 #include <constr_SEQUENCE.h>
 #include <constr_SET.h>
 #include <constr_CHOICE.h>
@@ -72,6 +79,9 @@ extern asn_TYPE_descriptor_t *asn_pdu_collection[];
 #pragma weak asn_OP_ANY
 #pragma weak OCTET_STRING_free
 #pragma weak asn_random_fill
+#pragma weak oer_encode_to_buffer
+#pragma weak uper_encode_to_buffer
+#pragma weak uper_encode_to_new_buffer
 #endif
 
 /* ledger (weak: absent in TSan builds) */
@@ -974,6 +984,50 @@ int main(int argc, char **argv) {
                 print_ledger(o);
                 fprintf(o, "\n");
                 if(r.buffer) { lib_begin(); FREEMEM(r.buffer); lib_end(); }
+            } else if(argl(kv, n, "lnew", 0)) {
+                /* uper_encode_to_new_buffer: grows its own buffer through REALLOC */
+                void *nb = 0;
+                ssize_t rc;
+                errno = 0;
+#ifndef ASN_DISABLE_PER_SUPPORT
+                if(!uper_encode_to_new_buffer) { fprintf(o, "R enc error=nocodec\n"); continue; }
+                lib_begin();
+                rc = uper_encode_to_new_buffer(slots[s].td, 0, slots[s].ptr, &nb);
+                lib_end();
+#else
+                fprintf(o, "R enc error=nocodec\n"); continue;
+#endif
+                fprintf(o, "R enc mode=lnew rc=%zd errno=%d bufnull=%d out=", rc, errno, nb ? 0 : 1);
+                if(rc >= 0 && nb) { if(quiet) fprintf(o, "q"); else puthex(o, nb, (size_t)rc); } else fprintf(o, "-");
+                print_ledger(o);
+                fprintf(o, "\n");
+                if(nb && rc >= 0) { lib_begin(); FREEMEM(nb); lib_end(); }
+            } else if(bufs && argl(kv, n, "legacy", 0)) {
+                /* the per-syntax entry points der_/oer_/uper_encode_to_buffer (exact-size heap buffer: ASan sees an overrun) */
+                size_t bn = (size_t)strtoul(bufs, 0, 10);
+                unsigned char *b = malloc(bn ? bn : 1);
+                asn_enc_rval_t er;
+                size_t bytes;
+                memset(b, 0xA5, bn ? bn : 1);
+                errno = 0;
+                lib_begin();
+                er.encoded = -1;
+                if(syn == ATS_DER) er = der_encode_to_buffer(slots[s].td, slots[s].ptr, b, bn);
+#ifndef ASN_DISABLE_OER_SUPPORT
+                else if(syn == ATS_CANONICAL_OER && oer_encode_to_buffer) er = oer_encode_to_buffer(slots[s].td, 0, slots[s].ptr, b, bn);
+#endif
+#ifndef ASN_DISABLE_PER_SUPPORT
+                else if(syn == ATS_UNALIGNED_CANONICAL_PER && uper_encode_to_buffer) er = uper_encode_to_buffer(slots[s].td, 0, slots[s].ptr, b, bn);
+#endif
+                else errno = ENOENT;
+                lib_end();
+                bytes = er.encoded < 0 ? 0 : (syn == ATS_DER || syn == ATS_CANONICAL_OER) ? (size_t)er.encoded : ((size_t)er.encoded + 7) / 8;
+                fprintf(o, "R enc mode=lbuf size=%zu rc=%zd nbytes=%zu errno=%d out=", bn, er.encoded, bytes, errno);
+                if(er.encoded >= 0 && bytes <= bn) { if(quiet) fprintf(o, "q"); else puthex(o, b, bytes); }
+                else fprintf(o, er.encoded >= 0 ? "trunc" : "-");
+                print_ledger(o);
+                fprintf(o, "\n");
+                free(b);
             } else if(bufs) {
                 size_t bn = (size_t)strtoul(bufs, 0, 10);
                 unsigned char *b = malloc(bn ? bn : 1);
